@@ -42,6 +42,18 @@ func c01(r *Report) {
 	r.Gate(Gate{ID: "C01.verify.issuer-resolves", Fn: vf, Effect: ok, Assume: sig, Check: ErrCheck(Fn("vdr/resolver", "DIDResolver", "Resolve"))})
 	r.Gate(Gate{ID: "C01.verify.signature", Fn: vf, Effect: ok, Assume: sig, Check: ErrCheck(Fn(ver, "signatureVerifier", "VerifySignature"))})
 	c01AllowDeactivatedFalse(r, vf)
+	// the validation time is handed down unchanged: Verify -> VerifySignature -> jsonldProof/jwtSignature; doVerifyVP -> VerifyVPSignature / Verify
+	r.ArgIs("C01.time.verify-passes-validAt", vf, Fn(ver, "signatureVerifier", "VerifySignature"), 1, ParamV("validAt"), 1)
+	vs := p.Func(ver, "signatureVerifier", "VerifySignature")
+	vps := p.Func(ver, "signatureVerifier", "VerifyVPSignature")
+	for _, f := range []*ssa.Function{vs, vps} {
+		r.ArgIs("C01.time.signature-passes-validateAt.ld", f, Fn(ver, "signatureVerifier", "jsonldProof"), 2, ParamV("validateAt"), 1)
+		r.ArgIs("C01.time.signature-passes-validateAt.jwt", f, Fn(ver, "signatureVerifier", "jwtSignature"), 2, ParamV("validateAt"), 1)
+	}
+	dvp := p.Func(ver, "verifier", "doVerifyVP")
+	r.ArgIs("C01.time.vp-signature-at-validAt", dvp, Fn(ver, "signatureVerifier", "VerifyVPSignature"), 1, ParamV("validAt"), 1)
+	r.ArgIs("C01.time.vp-credentials-at-validAt", dvp, p.FnOrImpl(ver, "Verifier", "Verify"), 3, ParamV("validAt"), 1)
+	r.ArgIs("C01.vp.credentials-trust-as-requested", dvp, p.FnOrImpl(ver, "Verifier", "Verify"), 1, ParamV("allowUntrustedVCs"), 1)
 
 	// IsRevoked: false only via ErrNotFound
 	r.Gate(Gate{ID: "C01.isrevoked.false-only-if-not-found", Fn: p.Func(ver, "verifier", "IsRevoked"), Effect: InstrEffect("return false, nil", func(in ssa.Instruction) bool {
